@@ -15,7 +15,7 @@ import tempfile
 
 from vf import astn, fm
 from vf.core import Collector
-from vf.docbase import DocProp, first_line_diff, line_kind, opts_key, rand_opts
+from vf.docbase import DocProp, ellipsis_mechanism, first_line_diff, line_kind, opts_key, rand_opts
 
 
 import re
@@ -67,6 +67,18 @@ class C02(DocProp):
                 yield {"kind": "text", "text": ii + " ".join(words) + "\n", "feats": ["hazard"], "profile": "hazard",
                        "opts": [rand_opts(r, widths=[r.randint(4, 30), r.randint(10, 70)], force={"semantic": False}),
                                 rand_opts(r, widths=[r.randint(4, 30), r.randint(10, 70)], force={"semantic": False})]}
+            # dot runs followed by an opening bracket / quote at every possible wrap position (typography on)
+            n = r.randint(4, 12)
+            words = [plain_word(r, 7) for _ in range(n)]
+            for _ in range(r.randint(1, 2)):
+                k = r.randint(0, n - 2)
+                words[k] = r.choice(["wait...", "so...", "hmm....", "end...\""])
+                words[k + 1] = r.choice(["(paren)", "[x]", "\"quoted\"", "*em*", "`code`", "word", "—dash"])
+            if not words[0][:1].isalpha():
+                words[0] = "Start"
+            yield {"kind": "text", "text": " ".join(words) + "\n", "feats": ["typo-hazard"], "profile": "typo-hazard",
+                   "opts": [rand_opts(r, widths=[r.randint(6, 40)], force={"ellipses": True, "smartquotes": False}),
+                            rand_opts(r, widths=[r.randint(6, 40)], force={"ellipses": True, "smartquotes": r.random() < 0.5})]}
 
     def check(self, case, col: Collector):
         text, feats = self.load(case)
@@ -99,6 +111,8 @@ class C02(DocProp):
     def classify(self, text, o, o1, o2, d, case) -> str:
         """Name the mechanism of a non-idempotent case (checked explicitly, never assumed)."""
         l1, l2 = o1.split("\n"), o2.split("\n")
+        ell_ok = ellipsis_mechanism(o1, o2)
+        ell_desc = f"C02/nonidempotent/caused-by/{ell_ok}"
         # several independent mechanisms may hit one document: attribute line by line when pass 2 only
         # rewrote lines in place
         if len(l1) == len(l2):
@@ -108,8 +122,8 @@ class C02(DocProp):
             for a, b in zip(l1, l2):
                 if a == b:
                     continue
-                if o.get("ellipses") and "..." in a and sq(a) == sq(b):
-                    mech.add("C02/nonidempotent/caused-by/ellipsis-at-line-start")
+                if o.get("ellipses") and ell_ok and "..." in a and sq(a) == sq(b):
+                    mech.add(ell_desc)
                 elif o.get("smartquotes") and unq(a) == unq(b):
                     mech.add("C02/nonidempotent/caused-by/smartquotes-needs-second-pass")
                 else:
@@ -121,14 +135,13 @@ class C02(DocProp):
         if len(l1) == len(l2) and all(a.rstrip() == b.rstrip() for a, b in zip(l1, l2)) and \
                 all(set(a.strip()) <= {">"} for a, b in zip(l1, l2) if a != b):
             return "C02/nonidempotent/trailing-space-on-empty-quote-line"
-        if o.get("ellipses") and not o.get("plaintext") and d[1] is not None and d[2] is not None:
+        if o.get("ellipses") and ell_ok and not o.get("plaintext") and d[1] is not None and d[2] is not None:
             sq = lambda t: t.replace("…", "...").replace(" ", "")  # noqa: E731
             # the first differing line differs only by a '...' that pass 2 converted (and re-wrapped words)
             if "..." in d[1] and (sq(d[1]) == sq(d[2]) or sq(d[2]).startswith(sq(d[1])) or sq(d[1]).startswith(sq(d[2]))):
-                return "C02/nonidempotent/caused-by/ellipsis-at-line-start"
-            if any(ln.lstrip("> ").lstrip().startswith("...") for ln in l1) and \
-                    sq("".join(l1)) == sq("".join(l2)):
-                return "C02/nonidempotent/caused-by/ellipsis-at-line-start"
+                return ell_desc
+            if sq("".join(l1)) == sq("".join(l2)):
+                return ell_desc
         if o.get("smartquotes") and not o.get("plaintext"):
             oo = dict(o, smartquotes=False)
             p1 = fm.fmt(text, **oo)
@@ -145,9 +158,9 @@ class C02(DocProp):
             unq2 = lambda t: t.translate({0x201c: '"', 0x201d: '"', 0x2018: "'", 0x2019: "'"})  # noqa: E731
             a, b = o1, o2
             used = []
-            if o.get("ellipses") and strip(ell(a)) != strip(a) or o.get("ellipses") and strip(ell(b)) != strip(b):
+            if o.get("ellipses") and ell_ok and (strip(ell(a)) != strip(a) or strip(ell(b)) != strip(b)):
                 a, b = ell(a), ell(b)
-                used.append("C02/nonidempotent/caused-by/ellipsis-at-line-start")
+                used.append(ell_desc)
             if strip(a) != strip(b) and o.get("smartquotes"):
                 a, b = unq2(a), unq2(b)
                 used.append("C02/nonidempotent/caused-by/smartquotes-needs-second-pass")
